@@ -1,4 +1,4 @@
 #!/bin/bash
-# usage: confirm_batch.sh <prop> <k:id> ...   e.g. confirm_batch.sh C14 1:C14-4 2:C14-5   (sources in /tmp/wtout2/<prop>/<k>)
+# usage: confirm_batch.sh <prop> <k:id> ...   e.g. confirm_batch.sh C14 1:C14-4 2:C14-5   (sources in ${WTOUT:-/tmp/wtout2}/<prop>/<k>)
 prop=$1; shift
-for kv in "$@"; do k=${kv%%:*}; id=${kv##*:}; CONFIRM_N=${CONFIRM_N:-4} /venv/bin/python /verif/tools/confirm_seeded.py /tmp/wtout2/$prop/$k $id; done
+for kv in "$@"; do k=${kv%%:*}; id=${kv##*:}; CONFIRM_N=${CONFIRM_N:-4} /venv/bin/python /verif/tools/confirm_seeded.py ${WTOUT:-/tmp/wtout2}/$prop/$k $id; done
